@@ -49,6 +49,28 @@ def c19_jobs(tier):
     return jobs
 
 
+def world_jobs(builds, quick_cases, thorough_cases, shards_q=2, shards_t=8, default_too=True):
+    def jobs(tier):
+        out = []
+        cases = quick_cases if tier == "quick" else thorough_cases
+        shards = shards_q if tier == "quick" else shards_t
+        for b in builds:
+            out.append(dict(build=b, params={"sndbuf": "4096", "cases": str(cases)}, shards=shards))
+            if default_too and b != "inproc":
+                out.append(dict(build=b, params={"cases": str(max(cases // 4, 50))}, shards=max(shards // 2, 1)))
+        return out
+    return jobs
+
+
+def M(level, technique, claim, note, rule, extra_assumptions=(), exhaustive=None):
+    d = dict(level=level, technique=technique, claim=claim, note=note, rule=rule, assumptions=COMMON_ASSUMPTIONS + list(extra_assumptions))
+    if exhaustive:
+        d["exhaustive"] = exhaustive
+    return d
+
+
+MODEL_ASSUMPTION = "the reference world model of DESIGN.md section 3.3 (acyclic channel families, eager destruction of everything reachable only through a dropped receiver) is the specification"
+
 PROPS = {
     "C01": dict(
         jobs=c01_jobs,
@@ -73,5 +95,40 @@ PROPS = {
             rule="cases = generated programs (vector of operations with index selectors, shrinkable); non-trivial = the executed program used >=3 channels, transferred at least one endpoint inside a message and observed at least one disconnection; distinct = distinct (build, params, canonical JSON of the program)",
             assumptions=COMMON_ASSUMPTIONS + ["the reference model of section 3.3 of DESIGN.md is the specification of 'ideal unbounded FIFO channel'", "release of in-flight descriptors is synchronous with the close that destroys the carrying queue (measured in the spike, relied on for exact predictions)"],
         ),
+    ),
+    "C03": dict(
+        jobs=world_jobs(["os", "inproc"], 4000, 80000),
+        meta=M("exploration",
+               "model-based stateful property testing (generated handle histories in lock-step with a reference-count world model) plus generated drop/receive races judged by logical-clock stamps",
+               "Generated histories of clone / move-to-thread / move-to-forked-process / embed / extract / drop-handle / drop-carrying-receiver over acyclic families of <=6 channels are executed against the real crate and a reference model; every recv/try_recv/try_recv_timeout result must be the model's (message, Empty, Disconnected). Race cases drop the last handles from several threads (and from a carrier message) while a receiver blocks, polls or waits with a timeout; Disconnected is judged against happens-before stamps and the receiver must finish once the last drop returned. Sampling, not proof.",
+               "The model and the stamp-based happens-before reasoning are trusted; OS scheduling inside the kernel is not controlled (races are repeated sampling with generated jitter).",
+               "cases = generated operation histories (<=40 quick / <=120 thorough operations) and race plans (1..5 sender threads with 0..3 messages each, optional carrier, three receive modes); non-trivial = history in which the held sender count of a channel reached zero while a handle was in transit, or a carrying queue was dropped with handles inside, or any race case; distinct = distinct (build, params, canonical JSON)",
+               [MODEL_ASSUMPTION]),
+    ),
+    "C04": dict(
+        jobs=world_jobs(["os", "memfd", "inproc"], 2400, 48000),
+        meta=M("exploration",
+               "model-based property testing: generated value trees with endpoint/region leaves bound to live channels, round-trip + identity probes; generated multi-hop receiver transfer chains (threads and forked processes)",
+               "Value trees with up to 63 endpoints of all kinds and regions at arbitrary positions (small and multi-packet) are sent through the real crate in lock-step with the world model: position is compared by canonical rendering, identity by sending a nonce through every sender and checking which receiver yields it, regions by content. Chains pass a receiver with 0..20 pending messages through 1..5 intermediaries (same thread / other thread / forked process) with traffic before, between and after hops, including through a sender that travelled along; the union of what intermediaries and the final holder receive must be exactly the sent sequence in order.",
+               "Probes and the world model are trusted; moved-out receiver handles cannot be used in safe Rust (the value owns them), so 'the handle it was sent from receives nothing further' is enforced by the type system and not probed.",
+               "cases = generated programs whose sends carry value trees with endpoint/region leaves (<=63 attachments per message), and transfer chains; non-trivial = a message with >=2 different endpoint kinds and >=1 region, or a chain of >=2 hops with non-empty backlog; distinct = distinct (build, params, canonical JSON)",
+               [MODEL_ASSUMPTION]),
+    ),
+    "C09": dict(
+        jobs=world_jobs(["os", "inproc"], 2400, 48000),
+        meta=M("exploration",
+               "model-based stateful property testing inside sacrificial child processes with SIGPIPE at its default disposition, plus generated send/drop races judged by logical-clock stamps",
+               "Generated histories dominated by receiver drops, carrier drops and sends of all sizes with and without attachments are run against the world model in a forked child whose SIGPIPE disposition is the default: send must be Ok exactly when the receiving end still exists somewhere (held, in a set/server, or in transit inside an undelivered message), messages accepted while the receiver was in transit must be delivered in order after unpacking, and the child must end normally. Race cases drop the receiver from another thread or another process during a stream of sends; sends started after the drop returned must fail, sends that returned before it began must succeed, none may hang.",
+               "World model and stamps trusted; the kernel-buffer budget of the generator guarantees that a legitimate send never blocks.",
+               "cases = generated histories and race plans (1..8 sends, small/multi-packet, with/without attachments, dropper = thread or forked process, typed or bytes channel); non-trivial = a multi-packet or attachment-carrying send after the receiver vanished, or a send to a receiver in transit; distinct = distinct (build, params, canonical JSON)",
+               [MODEL_ASSUMPTION]),
+    ),
+    "C14": dict(
+        jobs=lambda tier: [dict(build=b, params={"cases": "6000" if tier == "quick" else "120000"}, shards=2 if tier == "quick" else 8) for b in ("os", "inproc")],
+        meta=M("exploration",
+               "property-based testing with scripted Serialize/Deserialize implementations (generated failure points and nested sends) against a reference model of per-message attachments",
+               "A harness Serialize implementation driven by a generated script visits endpoints/regions, performs nested sends (depth <=3, attachments before/inside/after), fails at generated points or ignores nested failures; a Deserialize hook receives on another channel in the middle of decoding. Every message whose send returned Ok must arrive with exactly its own attachments in the right positions (identity probed); endpoints referenced only by a failed value must disconnect/refuse as soon as the program's handles are gone; plain follow-up traffic on the same thread must carry exactly its own attachments; the descriptor table must return to its baseline.",
+               "The scripted value encodes byte-for-byte like Node::List (variant indices verified at start-up); each case runs on a fresh thread because the library's attachment lists are per-thread.",
+               "cases = generated scripts (0..7 steps, recursive nesting <=3) x target closed or not x 0..2 follow-up sends x receive-inside-deserialise; non-trivial = a failure after >=1 visited attachment, or nesting with attachments on both levels; distinct = distinct (build, canonical JSON)"),
     ),
 }
